@@ -252,12 +252,31 @@ def shipped_inputs(rng, name, n):
     return byte_inputs(rng, base, n)
 
 
+class FixedG:
+    """A hand-written grammar with its inputs, in the interface of gengram.G that c13 uses."""
+    def __init__(self, text, inputs):
+        self._text, self._inputs = text, inputs
+
+    def text(self):
+        return self._text
+
+    def inputs(self, **kw):
+        return list(self._inputs)
+
+
 def c13(ctx):
     T = ctx.T()
     rng = random.Random('c13/%d' % ctx.seed)
     # generated grammars x byte-level inputs: real vs model (and spec)
     n = 30 if ctx.tier == 'quick' else 300
     gs = [GG.gen_grammar(ctx.seed, 1000 + i, 'core') for i in range(n)]
+    # ranges and classes that reach the last code point (the end-of-input sentinel is the value just above it), NUL, and
+    # negated classes — at the end of the input, under repetition
+    hdr = 'package g\n\ntype P Peg {\n Trace string\n STrace string\n}\n\n'
+    for body in ["R0 <- [\\0x80-\\0x10FFFF]+ !.", "R0 <- 'a' [\\0x00-\\0x10FFFF]* !.", "R0 <- ([\\0x10FFFE-\\0x10FFFF] / 'b')+", "R0 <- [^\\0x00-\\0x10FFFE]* 'c'?",
+                 "R0 <- ('\\0x10FFFF' / [\\0x00-\\0x7f])* !.", "R0 <- <[\\0xe000-\\0x10FFFF]*> R1\nR1 <- [\\0x00-\\0xd7ff]*"]:
+        gs.append(FixedG(hdr + body + '\n', ['', 'a', 'b', 'c', '\U0010ffff', 'a\U0010ffff', '\U0010ffff\U0010ffff', '\u00e9', 'a\x00', '\x00', '\u0085\U0010ffff',
+                                              'b\U0010ffff\U0010ffffb', '\ue000', '\u6c49\ue000', 'abc', '\U0001f600\U0010ffff']))   # (runes of the quoting model's alphabet only)
     reqs = [{'id': 'b%d' % i, 'text': g.text(), 'opts': '', 'compile': True, 'src': True, 'tree': True} for i, g in enumerate(gs)]
     real = T.run_pegx_parallel(reqs)
     M = L.RunModule()
